@@ -15,7 +15,8 @@
 //	OnErr SwallowsErr (Call ...)        the error is discarded: assigned to _, the call is an expression
 //	                                    statement, or the `if err != nil` body only logs / emits, ends in
 //	                                    `return nil`, `continue` or `break`, or falls through
-//	OnErr (UnrecognisedErr "..") (..)   anything else (compound condition, error checked later, nested use)
+//	OnErr (UnrecognisedErr "..") (..)   anything else (compound condition, error checked later, nested use,
+//	                                    a closure with a defer statement or a named result)
 //
 // A call without an error result gets no frame: it has nothing to report.
 //
@@ -38,9 +39,10 @@ type hooksErrHandling struct {
 }
 
 type hooksErrAnalysis struct {
-	fn   *hooksFn
-	info *types.Info
-	m    map[*ast.CallExpr]hooksErrHandling
+	fn     *hooksFn
+	info   *types.Info
+	m      map[*ast.CallExpr]hooksErrHandling
+	poison string // the closure can change its result behind the statements read here (defer, named result)
 }
 
 var hooksErrorType = types.Universe.Lookup("error").Type()
@@ -63,11 +65,32 @@ func hooksHasErrResult(info *types.Info, e *ast.CallExpr) bool {
 
 func hooksAnalyseClosure(fn *hooksFn, lit *ast.FuncLit) *hooksErrAnalysis {
 	a := &hooksErrAnalysis{fn: fn, info: fn.pkg.TypesInfo, m: map[*ast.CallExpr]hooksErrHandling{}}
+	if lit.Type.Results != nil {
+		for _, f := range lit.Type.Results.List {
+			if len(f.Names) > 0 {
+				a.poison = "closure with a named result"
+			}
+		}
+	}
+	for _, s := range lit.Body.List {
+		ast.Inspect(s, func(n ast.Node) bool {
+			switch n.(type) {
+			case *ast.FuncLit:
+				return false
+			case *ast.DeferStmt:
+				a.poison = "closure with a defer statement"
+			}
+			return true
+		})
+	}
 	a.block(lit.Body.List)
 	return a
 }
 
 func (a *hooksErrAnalysis) handling(e *ast.CallExpr) hooksErrHandling {
+	if a.poison != "" {
+		return hooksErrHandling{"UnrecognisedErr", a.pos(e) + ": " + a.poison}
+	}
 	if h, ok := a.m[e]; ok {
 		return h
 	}
